@@ -195,7 +195,7 @@ class Gen:
             for k in range(nsec):
                 L += ["S %d" % k, "D 4 %d" % r.getrandbits(24)]
         L.append("F")
-        jit = arch == "x64" and r.random() < 0.12 and not known
+        jit = arch == "x64" and r.random() < 0.25 and not known
         L.append("EX")
         if jit:
             L += ["JIT"]
@@ -768,6 +768,9 @@ def check_programs(ck, impl, model, programs):
             else:
                 res["diffs"].append("JIT succeeded, model says %s" % answer)
             res["problems"] += evaluate(info, image, addr, stats)
+            # installed-image theorems per site kind (C04_installed_call_site / _abs_entry / _expr_site): how many installed sites of each kind
+            for s_ in info["sites"]:
+                stats["jit_installed:" + s_.kind] = stats.get("jit_installed:" + s_.kind, 0) + 1
             if want_err:
                 res["problems"].append(("C04/unreachable-not-reported", "JitRuntime::_add returned ok although %s" % want_err))
             continue
